@@ -92,6 +92,7 @@ type FuncCtx struct {
 	inlined   map[string]bool
 	callees   map[string]bool
 	entrySnap *Snapshot
+	bodyPos   token.Pos
 	curContract *FuncContract
 	loopDepth int
 	permitBareRange bool
